@@ -563,8 +563,10 @@ def b_configs(tier, models=('UNIFAC', 'Dortmund', 'NIST', 'Ideal')):
     for model in models:
         for IDs in b_sets(tier):
             if model == 'Ideal' and len(IDs) not in (2, 5): continue
-            for T in b_temperatures(tier):
-                out.append({'name': f'{model};{"+".join(IDs)};T={T:g}', 'model': model, 'IDs': list(IDs), 'T': T})
+            temps = b_temperatures(tier)
+            for T in temps:
+                out.append({'name': f'{model};{"+".join(IDs)};T={T:g}', 'model': model, 'IDs': list(IDs), 'T': T,
+                            'out_of_process': T == temps[len(temps) // 2]})
     return out
 
 
@@ -765,27 +767,36 @@ def B_permutation(w, cfg):
 
 # ---- frame, members without groups, functional form, degenerate compositions (out of process)
 
-def _sub_main():
-    """Child process: evaluate a model at compositions that may crash the interpreter (see C16/B_frame_and_form)."""
-    req = json.load(sys.stdin)
-    G = build_model(req['model'], req['IDs'])
-    out = []
-    for x in req['xs']:
-        xa = np.array(x, dtype=float)
-        r = G(xa, req['T'])
-        xf = np.array(x, dtype=float)
-        rf = G.f(xf, req['T'], *G.args)
-        rf = np.ones(len(x)) * rf
-        out.append({'gamma': [float(i) for i in r], 'x_after': [float(i) for i in xa], 'f': [float(i) for i in rf]})
-    sys.stdout.write('\nRESULT' + json.dumps(out) + '\n')
+_SUB_SCRIPT = r"""
+import sys, json
+import numpy as np
+import thermosteam as tmo
+from thermosteam.equilibrium import activity_coefficients as ac
+req = json.load(sys.stdin)
+chems = []
+for ID in req['IDs']:
+    c = tmo.Chemical(ID)
+    if ID in req['nist']: c.NIST.set_group_counts_by_name(req['nist'][ID])
+    chems.append(c)
+G = getattr(ac, req['cls'])(tuple(chems))
+out = []
+for x in req['xs']:
+    xa = np.array(x, dtype=float)
+    r = G(xa, req['T'])
+    xf = np.array(x, dtype=float)
+    rf = np.ones(len(x)) * G.f(xf, req['T'], *G.args)
+    out.append({'gamma': [float(i) for i in r], 'x_after': [float(i) for i in xa], 'f': [float(i) for i in rf]})
+sys.stdout.write('\nRESULT' + json.dumps(out) + '\n')
+"""
 
 
 def _eval_out_of_process(model, IDs, xs, T):
-    req = json.dumps({'model': model, 'IDs': list(IDs), 'xs': xs, 'T': T})
-    verif = os.path.dirname(os.path.dirname(os.path.abspath(__file__)))
+    """Child process (same interpreter, same PYTHONPATH, nothing of the framework imported): a composition that crashes the
+    interpreter must not take the checker down with it."""
+    req = json.dumps({'cls': MODELS[model].__name__, 'IDs': list(IDs), 'xs': xs, 'T': T, 'nist': NIST_GROUPS})
     try:
-        p = subprocess.run([sys.executable, '-W', 'ignore', '-c', 'import contracts.C16_activity_coefficients as m; m._sub_main()'],
-                           input=req, capture_output=True, text=True, timeout=600, cwd=verif)
+        p = subprocess.run([sys.executable, '-W', 'ignore', '-c', _SUB_SCRIPT], input=req, capture_output=True, text=True,
+                           timeout=600)
     except subprocess.TimeoutExpired:
         return None, 'timeout'
     for line in p.stdout.splitlines():
@@ -849,7 +860,7 @@ def B_frame_and_form(w, cfg):
         G(np.array([1. / n] * n, dtype=float), 250. + (T + 77.) % 200.)      # never degenerate (see _degenerate)
         r2 = np.asarray(G(x0.copy(), T), dtype=float)
         t.check(c_rep, np.array_equal(r2, r), x=x, first=list(r), second=list(r2))
-    if degenerate:
+    if degenerate and cfg.get('out_of_process', True):
         t.declare(c_deg)
         res, err = _eval_out_of_process(model, IDs, degenerate, T)
         if res is None:
